@@ -1,5 +1,5 @@
 """C03 — element, flat, list and summary views describe the same data."""
-from .. import ops_array
+from .. import ops_array, ops_nf
 from ..subject import Subject
 
 ASSUMPTIONS = [
@@ -13,6 +13,8 @@ def run(ctx):
         s = Subject(ctx)
         ops_array.case_observers(ctx, s)
         ops_array.case_views(ctx, s)
+        if i % 4 == 0:
+            ops_nf.case_frame_getfield(ctx, s)
     # the views of an object after it was produced by other operations / mutated in place
     ops_array.derived_views(ctx, ctx.budget(60, 600))
     ops_array.history_same_object(ctx, ctx.budget(60, 600))
